@@ -135,8 +135,12 @@ func ruleDistributor(w *World, r *Run) {
 		// counters
 		cnt := map[string]int{}
 		for _, ie := range calls(s, cInc) {
-			if ie.Recv != nil && ie.Recv.Kind == "global" {
-				cnt[names[ie.Recv.Name]]++
+			if ie.Recv != nil {
+				if m, ok := names[ie.Recv.key]; ok {
+					cnt[m]++
+				} else {
+					cnt["unknown-counter:"+short(ie.Recv.String())]++
+				}
 			}
 			lab := ie.Args[0]
 			r.Check(lab.Kind == "varargs" && len(lab.Args) == 1 && lab.Args[0] == lf("ID"), "C15.d", fnDistForLog+" | counter label is the log ID", w.pos(ie.Pos), "counter label "+short(lab.String()))
